@@ -13,9 +13,17 @@ registry; the first word of the sequence label selects it (`keys`, `topics`, `bi
 `op` runs the MODEL (OZ.Model.Reg*); `mon` recomputes the plain set / map / relation from the
 accepted operations only and compares every getter of the IMPLEMENTATION with it (it never
 calls a model transition function).
+
+`<registry> idle days=<n>` moves the ledger on by `n` days (17 280 ledgers each) WITHOUT touching
+the contract; it is handled here for all registries: the model state stays as it is (the context
+rules only learn the new ledger sequence), and the monitor requires that two consecutive idle
+observations (the harness always sends `idle days=0` right before `idle days=n`) print exactly
+the same getters: `site=<registry>.idle.changed`.
 -/
 namespace OZ.Drv.C20
 open OZ.Drv
+
+def LEDGERS_PER_DAY : Nat := 17280
 
 inductive St where
   | none
@@ -65,7 +73,31 @@ def initMn (label : String) : Mn :=
   | some "rules" => .rules (Rules.minit ws)
   | _ => .none
 
+/-- `some days` for an idle line -/
+def idleDays (line : String) : Option Nat :=
+  match words line with
+  | _ :: "idle" :: rest => some (kvN rest "days")
+  | _ => none
+
+/-- the model's observation after an idle gap: nothing but the ledger sequence moved -/
+def idleSt (s : St) (days : Nat) : St × String :=
+  match s with
+  | .keys m => (s, "ok " ++ Keys.showState m)
+  | .topics m => (s, "ok " ++ Topics.showState m)
+  | .binder m => (s, "ok " ++ Binder.showState m (.preload 0))
+  | .docs m => (s, "ok " ++ Docs.showState m (.preload 0 0 0 0))
+  | .irs m => (s, "ok " ++ Irs.showState m)
+  | .claims m => (s, "ok ret=- " ++ Claims.showState m)
+  | .hooks m => (s, "ok " ++ Hooks.showState m)
+  | .rules m =>
+    let m' : Rules.M := { s := OZ.RegRules.next Rules.installOk m.s (.advance (days * LEDGERS_PER_DAY)) }
+    (.rules m', "ok ret=- " ++ Rules.showState m')
+  | .none => (s, "no-registry")
+
 def opSt (s : St) (line : String) : St × String :=
+  match idleDays line with
+  | some d => idleSt s d
+  | none =>
   match s with
   | .keys m => let (m', o) := Keys.stepLine m line; (.keys m', o)
   | .topics m => let (m', o) := Topics.stepLine m line; (.topics m', o)
@@ -77,7 +109,22 @@ def opSt (s : St) (line : String) : St × String :=
   | .rules m => let (m', o) := Rules.stepLine m line; (.rules m', o)
   | .none => (s, "no-registry")
 
-def monMn (g : Mn) (opl obs : String) : Mn × Option String :=
+/-- monitor state: the registry's plain structure, and the getters printed by the previous
+observation if that observation was an idle one -/
+structure MonSt where
+  sub : Mn
+  lastIdle : Option (List String)
+
+/-- the getters of an observation: everything but the verdict and the returned value -/
+def getterWords (obs : String) : List String :=
+  ((words obs).drop 1).filter (fun w => !w.startsWith "ret=")
+
+def firstDiff (a b : List String) : String :=
+  match (List.zip a b).find? (fun p => p.1 ≠ p.2) with
+  | some (x, y) => s!"{(x.take 160).toString} became {(y.take 160).toString}"
+  | none => s!"{a.length} getters became {b.length}"
+
+def monSub (g : Mn) (opl obs : String) : Mn × Option String :=
   match g with
   | .keys m => let (m', f) := Keys.check m opl obs; (.keys m', f)
   | .topics m => let (m', f) := Topics.check m opl obs; (.topics m', f)
@@ -89,12 +136,32 @@ def monMn (g : Mn) (opl obs : String) : Mn × Option String :=
   | .rules m => let (m', f) := Rules.check m opl obs; (.rules m', f)
   | .none => (g, some "site=c20.label sequence label does not name a registry")
 
+def monMn (g : MonSt) (opl obs : String) : MonSt × Option String :=
+  match idleDays opl with
+  | some d =>
+    let reg := (words opl).head?.getD "c20"
+    let now := getterWords obs
+    let sub' : Mn := match g.sub with
+      | .rules r => .rules { r with now := r.now + d * LEDGERS_PER_DAY }
+      | x => x
+    let fail : Option String :=
+      if (words obs).head? ≠ some "ok" then some s!"site={reg}.idle.changed an idle gap is reported as refused"
+      else match g.lastIdle with
+        | some before =>
+          if before = now then none
+          else some s!"site={reg}.idle.changed after {d} idle days (no call in between) a getter answers differently: {firstDiff before now}"
+        | none => none
+    ({ sub := sub', lastIdle := some now }, fail)
+  | none =>
+    let (sub', f) := monSub g.sub opl obs
+    ({ sub := sub', lastIdle := none }, f)
+
 def machine : Machine where
   σ := St
   init := initSt
   op := opSt
-  μ := Mn
-  minit := initMn
+  μ := MonSt
+  minit := fun l => { sub := initMn l, lastIdle := none }
   mon := monMn
 
 end OZ.Drv.C20
